@@ -9,6 +9,7 @@ S4 search    : an independent python monitor (this file, `judge`) checks the pro
                refusal of small destinations, estimate >= final size.  It never looks at the model's answers.
 """
 import os
+import shutil
 import random
 import json
 import vlib
@@ -264,13 +265,21 @@ def gen_addrtab(rng, counters):
             ops.append("ED %d %d %d" % (rng.randrange(0, npre + 1), rng.randrange(0, npre + 1), size))    # embed_label_delta
             extra += size
             counters["embed_label_delta_sites"] += 1
+    nrel = 0
+    rel_far = False
     for a in seq:
         ops.append("K %d %d" % (a, CALL_LEN))
         if rng.random() < 0.3:
             embed()
+        if not jit and rng.random() < 0.25:
+            far_jcc = rng.random() < 0.08
+            ops.append("KR %d" % (base + ((1 << 40) if far_jcc else rng.randrange(-(1 << 20), 1 << 20))))      # jz <abs>: AbsToRel
+            rel_far = rel_far or far_jcc
+            nrel += 1
+            counters["abs_to_rel_sites"] += 1
     if rng.random() < 0.3:
         embed()
-    secs[0]["b"] = CALL_LEN * len(seq) + 8 * nabs + extra
+    secs[0]["b"] = CALL_LEN * len(seq) + 8 * nabs + extra + 6 * nrel
     counters["embed_label_sites"] += nabs
     tab_last = True
     if seq:
@@ -298,10 +307,72 @@ def gen_addrtab(rng, counters):
     ops += ["L", "C", "F", "L", "C"]
     if seq and rng.random() < 0.3:
         ops.append("P %d %d" % (need, rng.randrange(4)))        # the image before relocation
+    if rel_far:
+        ops += ["X %d %d" % (base, used)]       # refused (kRelocOffsetOutOfRange); the holder is half patched afterwards: nothing more is compared
+        counters["relocation_out_of_range"] += 1
+        return " ".join(ops)
     ops += ["X %d %d" % (base, used), "L", "C"]
     for n in [final, need, max(final - 1, 0), final + 9, rng.randrange(0, need + 2)]:
         ops.append("P %d %d" % (n, rng.randrange(4)))           # the relocated image, all flag combinations over the runs
         counters["copy_after_relocation"] += 1
+    return " ".join(ops)
+
+
+def gen_boundary(rng, counters):
+    """Scenarios placed ON the case-split boundaries of the proofs: predecessor end congruent 0 / 1 / a-1 modulo the alignment (padding
+    0, a-1, 1), real size 0 vs 1, virtual size = / one below / one above the buffer size, layout end exactly 2^64-1 / 2^64 (last legal and
+    first overflowing), alignment wrap exactly at 2^64, and destination sizes at every section's buffer end and virtual end +-1."""
+    kind = rng.randrange(3)
+    ops = []
+    if kind == 0:       # alignment / size boundaries + copy boundaries
+        a = rng.choice([2, 8, 16, 64, 4096])
+        tb = rng.choice([a - 1, a, a + 1, 2 * a, 1, 2 * a - 1])
+        secs = [(0, tb, rng.choice([0, tb, tb + 1, max(tb - 1, 0)]))]
+        ops.append("Z 0 %d %d %d" % (tb, secs[0][2], rng.randrange(1, 1000)))
+        n = rng.choice([1, 2, 3])
+        for i in range(n):
+            al = rng.choice([a, a, 1, 2 * a])
+            b = rng.choice([0, 0, 1, al - 1, al, al + 1])
+            v = rng.choice([0, b, b + 1, max(b - 1, 0), b + al])
+            ops.append("N %s %d 0" % (hexname(b"b%d" % i), al))
+            if b or v:
+                ops.append("Z %d %d %d %d" % (i + 1, b, v, rng.randrange(1, 1000)))
+            secs.append((al, b, v))
+        ops += ["L", "C", "F", "L", "C"]
+        off = 0
+        dsts = set()
+        for al, b, v in secs:
+            rs = max(b, v)
+            if rs:
+                al1 = max(al, 1)
+                off = (off + al1 - 1) // al1 * al1
+            for d in (off + b - 1, off + b, off + b + 1, off + v - 1, off + v, off + v + 1, off, off - 1):
+                if d >= 0:
+                    dsts.add(d)
+            off += rs
+        for d in sorted(dsts):
+            ops.append("P %d %d" % (d, rng.choice([1, 3, 3, 0, 2])))
+        ops += ["F", "L", "C", "J"]
+        counters["boundary_align_copy"] += 1
+    elif kind == 1:     # the layout ends exactly at 2^64-1 (legal) / 2^64 (overflow), with and without padding
+        al = rng.choice([1, 8, 64])
+        k = rng.choice([0, 1, 2])
+        last = rng.choice([1, al, 5])
+        pad_to = W64 - last - (1 if k == 0 else 0) + (1 if k == 2 else 0)      # where the last section must start
+        v0 = pad_to // al * al if rng.random() < 0.5 else pad_to - rng.randrange(0, al)
+        ops.append("Z 0 0 %d 1" % min(max(v0, 1), W64 - 1))
+        ops.append("N 62 %d 0" % al)
+        ops.append("Z 1 0 %d 1" % last)
+        ops += ["L", "C", "F", "L", "C"]
+        counters["boundary_end_2_64"] += 1
+    else:               # align_up itself wraps: predecessor ends within one alignment unit of 2^64
+        al = rng.choice([2, 16, 4096, 1 << 20, 1 << 31])
+        e = W64 - rng.choice([0, 1, al - 1, al, al + 1]) - 1
+        ops.append("Z 0 0 %d 1" % min(max(e, 1), W64 - 1))
+        ops.append("N 62 %d 0" % al)
+        ops.append("Z 1 0 %d 1" % rng.choice([1, 1, al]))
+        ops += ["L", "C", "F", "L", "C"]
+        counters["boundary_align_wrap"] += 1
     return " ".join(ops)
 
 
@@ -310,7 +381,9 @@ def gen_stream(rng, tier, counters):
     out = []
     for i in range(n):
         r = rng.random()
-        if r < 0.80:
+        if r < 0.08:
+            out.append(gen_boundary(rng, counters))
+        elif r < 0.80:
             out.append(gen_layout(rng, tier, counters))
         elif r < 0.90:
             out.append(gen_overflow(rng, counters))
@@ -347,6 +420,10 @@ def relocated_bytes(calls, base, text_off, tab_off, sec_off=None):
         if c[0] == "abs":
             text += le(((base or 0) + sec_off[c[2]] + c[3]) & (W64 - 1), 8)       # base None: the canonical image (base subtracted again)
             continue
+        if c[0] == "rel":
+            d = c[2] - ((base or 0) + text_off + c[1] + 6)      # jz rel32: target - address of the next instruction
+            text += b"\x0F\x84" + le(d & 0xFFFFFFFF, 4)
+            continue
         if c[0] == "expr":
             _, pos, t1, o1, t2, o2, size = c
             text += le(((sec_off[t1] + o1) - (sec_off[t2] + o2)) & ((1 << (8 * size)) - 1), size)
@@ -365,7 +442,7 @@ def relocated_bytes(calls, base, text_off, tab_off, sec_off=None):
 
 
 def text_placeholder(calls):
-    return b"".join(b"\x40\xE8\0\0\0\0" if c[0] == "call" else bytes(8) if c[0] == "abs" else bytes(c[6]) for c in calls)
+    return b"".join(b"\x40\xE8\0\0\0\0" if c[0] == "call" else b"\x0F\x84\0\0\0\0" if c[0] == "rel" else bytes(8) if c[0] == "abs" else bytes(c[6]) for c in calls)
 
 
 def section_bytes(s):
@@ -494,6 +571,18 @@ def judge(line, ans):
                 out.append(("C10/harness/embed-label", "label bound at %s, the section holds %d bytes" % (p[3], secs[target]["b"])))
             calls.append(("abs", secs[0]["b"], target, int(p[3])))
             secs[0]["b"] = int(p[2])
+            secs[0]["seed"] = None
+            secs[0]["data"] = text_placeholder(calls)
+            last_flat_end = None
+            flattened_clean = False
+        elif op == "KR":
+            addr = int(toks[i + 1]); i += 2
+            a = nxt()
+            if not a.startswith("KR:ok:"):
+                out.append(("C10/harness/emit-jcc", "jz <abs> emission failed: %s" % a))
+                return out
+            calls.append(("rel", secs[0]["b"], addr))
+            secs[0]["b"] = int(a[6:])
             secs[0]["seed"] = None
             secs[0]["data"] = text_placeholder(calls)
             last_flat_end = None
@@ -677,6 +766,13 @@ def judge(line, ans):
             i += 3
             a = nxt()
             p = a.split(":")
+            base_x = int(toks[i - 2])
+            unreachable = [c for c in calls if c[0] == "rel" and not -(1 << 31) <= c[2] - (base_x + secs[0]["off"] + c[1] + 6) < (1 << 31)]
+            if unreachable:
+                # a conditional jump has no address-table fallback: the relocation must be refused, not wrapped
+                if p[1] != "ERANGE":
+                    out.append(("C10/reloc/out-of-range-accepted", "relocate_to_base answered %s although jz at %d cannot reach %#x from base %#x" % (p[1], unreachable[0][1], unreachable[0][2], base_x)))
+                return out
             if p[1] != "ok":
                 out.append(("C10/harness/relocate", "relocate_to_base failed: %s" % a))
                 return out
@@ -815,6 +911,34 @@ def judge(line, ans):
     return out
 
 
+# ---------------------------------------------------------------------------------------------- translator (constants)
+GEN_NAME = "C10Consts.v"
+GEN_KEYS = ["max_name", "name_cells", "no_offset", "f_executable", "f_readonly", "f_zeroinit", "f_comment", "f_builtin", "f_implicit",
+            "copy_pad_section", "copy_pad_target", "text_id", "text_flags", "text_align", "text_order", "text_offset", "text_name",
+            "new_section_align_of_0", "new_section_offset", "call_bytes", "addrtab_align", "addrtab_vsize_per_slot", "addrtab_order",
+            "addrtab_name", "embed_label_size"]
+
+
+def gen_consts_text(answer):
+    """coq/gen/C10Consts.v from the harness' `T` answer (the constants of /repo's headers and of a freshly initialised holder)."""
+    kv = dict(x.split("=", 1) for x in answer.strip().split(";")[1:])
+    missing = [k for k in GEN_KEYS if k not in kv]
+    if missing:
+        raise RuntimeError("constants dump lacks %s" % missing)
+    out = ["(* GENERATED by tools/checks/c10.py (harness op T) from /repo's working tree: constants of asmjit/core/globals.h, codeholder.h and of a",
+           "   freshly initialised x86-64 CodeHolder that the C10 model (coq/theories/Sections) hard-codes.  Data only; compared with the model in",
+           "   Properties_C10.C10_constants_match.  Regenerated and re-checked on every run. *)",
+           "From Coq Require Import ZArith List.", "Import ListNotations.", "Local Open Scope Z_scope.", ""]
+    for k in GEN_KEYS:
+        v = kv[k]
+        if k in ("text_name", "call_bytes", "addrtab_name"):
+            bs = [] if v == "-" else [int(v[i:i + 2], 16) for i in range(0, len(v), 2)]
+            out.append("Definition g_%s : list Z := [%s]." % (k, "; ".join(map(str, bs))))
+        else:
+            out.append("Definition g_%s : Z := %s." % (k, ("(%s)" % v) if v.startswith("-") else v))
+    return "\n".join(out) + "\n"
+
+
 # ---------------------------------------------------------------------------------------------- running
 def run_sharded(exe, lines, shards=16, args=(), timeout=1500):
     chunks = [lines[i::shards] for i in range(shards)]
@@ -848,9 +972,22 @@ def first_diff(x, y):
 
 def run(ck):
     rng = random.Random(ck.seed)
-    obl = ck.coq_properties()
-    ck.log("theorems: %d, failed: %d" % (len(obl), len([o for o in obl if not o["ok"]])))
     impl = ck.build_harness("c10", ["c10_harness.cpp"])
+    # translator tie: the constants the model hard-codes are re-extracted from /repo and the theorem comparing them is re-checked
+    gen_text = gen_consts_text(vlib.sh([impl], inp="T\n", timeout=60)[1])
+    committed = os.path.join(vlib.COQ, "gen", GEN_NAME)
+    gen_dir = None
+    gen_changed = (not os.path.exists(committed)) or open(committed).read() != gen_text
+    if gen_changed:
+        # slow path, own regen: only C10's generated file is recompiled (in a scratch directory bound to VerifGen)
+        gen_dir = os.path.join(ck.work, "gen")
+        shutil.rmtree(gen_dir, ignore_errors=True)
+        os.makedirs(gen_dir)
+        open(os.path.join(gen_dir, GEN_NAME), "w").write(gen_text)
+        rc, out, err = vlib.sh(["coqc", "-Q", gen_dir, "VerifGen", "-w", "-all", os.path.join(gen_dir, GEN_NAME)], cwd=gen_dir, timeout=600)
+        ck.log("constants of this tree differ from the committed snapshot coq/gen/%s: regenerated (coqc rc %d)" % (GEN_NAME, rc))
+    obl = ck.coq_properties(gen_dir=gen_dir)
+    ck.log("theorems: %d, failed: %d" % (len(obl), len([o for o in obl if not o["ok"]])))
     model = ck.ocaml_model("Extract_Sections.v", ["zconv.ml", "c10_driver.ml"], name="c10")
 
     if ck.replay:
@@ -892,8 +1029,20 @@ def run(ck):
         sc = ri[3]
         rc1, out1, err1 = vlib.sh([impl], inp=sc + "\n", timeout=120) if sc else (0, "", "")
         if sc and rc1 != 0:
+            # classify the crash: the same single scenario under AddressSanitizer names the overflowing access
+            detail = ""
+            try:
+                import re as _re
+                san1 = ck.build_harness("c10", ["c10_harness.cpp"], variant="asan")
+                _rc, _o, _e = vlib.sh([san1], inp=sc + "\n", timeout=300)
+                m1 = _re.search(r"AddressSanitizer: ([a-z-]+)[^\n]*", _e)
+                fr = _re.search(r"#\d+ 0x[0-9a-f]+ in (asmjit::[^\n]*?(?:codeholder|jitruntime)\.cpp:\d+)", _e)
+                if m1:
+                    detail = " [AddressSanitizer: %s%s]" % (m1.group(1), (" in " + fr.group(1)) if fr else "")
+            except Exception as ex:
+                detail = " [no sanitizer classification: %s]" % ex
             ck.violation("C10/implementation-crash", "the implementation crashed (rc %s) on a single scenario: memory-unsafe behaviour of the section functions; "
-                         "last answers: %s" % (rc1, out1[-200:]), {"scenario": sc, "rc": rc1})
+                         "last answers: %s%s" % (rc1, out1[-200:], detail), {"scenario": sc, "rc": rc1, "sanitizer": detail})
         else:
             ck.violation("C10/harness-crash", "harness (real CodeHolder) crashed or lost answers (rc %s) near scenario %r: %s" % (ri[1], sc[:300], ri[2][-300:]),
                          {"scenario": sc, "detail": str(ri[:3]), "broken": "correspondence stream C10 (process died)"}, no_input=True)
@@ -959,19 +1108,41 @@ def run(ck):
                     ck.violation("C10/sanitizer/answers-differ", "plain and sanitizer builds answer differently (uninitialised or out-of-bounds read?): %s vs %s" % (x[:150], z[:150]),
                                  {"scenario": sc, "impl": x, "impl_sanitizer_build": z})
                     break
-    for o in ck.proof_failures():
-        ck.violation("C10/proof/" + o["name"], "theorem %s no longer checks (%s)" % (o["name"], getattr(ck, "coq_log", "")[-800:]),
-                     {"broken": "theorem " + o["name"], "file": "coq/theories/Properties/Properties_C10.v"}, no_input=True)
+    fails = ck.proof_failures()
+    if fails:
+        # coqc stops at the first theorem that no longer checks: name that one (the rest of the file was not reached)
+        import re as _re
+        src = open(os.path.join(vlib.COQ, "theories", "Properties", "Properties_C10.v")).read().split("\n")
+        starts = [(i + 1, m.group(1)) for i, l in enumerate(src) for m in [_re.match(r"\s*Theorem\s+([A-Za-z0-9_']+)", l)] if m]
+        fl = getattr(ck, "coq_fail_line", None)
+        broken = [n for (ln, n), nxt in zip(starts, starts[1:] + [(10 ** 9, "")]) if fl is not None and ln <= fl < nxt[0]]
+        for name in (broken or [o["name"] for o in fails][:1]):
+            ck.violation("C10/proof/" + name, "theorem %s no longer checks%s (%s)" % (
+                name, " against the constants regenerated from this tree" if name == "C10_constants_match" else "", getattr(ck, "coq_log", "")[-600:]),
+                {"broken": "theorem " + name, "file": "coq/theories/Properties/Properties_C10.v", "line": fl,
+                 "not_reached": len(fails) - 1}, no_input=True)
     z = list(zip(lines, ri, rm))
     samples = [{"scenario": c[:400], "impl": x[:400], "model": y[:400]} for c, x, y in z[:2] + z[len(z) // 2: len(z) // 2 + 2]]
     return ck.finish(
         "proof",
         {"evaluations": ops_total, "distinct_nontrivial": len(nontrivial),
-         "rule": "one scenario = fresh CodeHolder + generated operations (new_section / fabricated sizes / lookups / flatten / code_size / "
+         "rule": "(what was COMPARED, not proved) one scenario = fresh CodeHolder + generated operations (new_section / fabricated sizes / lookups / flatten / code_size / "
                  "copy_flattened_data with guard bands / copy_section_data / call emission + relocate_to_base); evaluations = answered operations; "
                  "a scenario is non-trivial when flatten succeeded on it and its dumps list more than two sections (distinct scenario lines counted)",
-         "samples": samples, "scenarios": len(lines), "corpus_scenarios": ncorpus, "scenarios_judged_by_oracle": judged,
+         "samples": samples,
+         "proved_for_all_inputs": [
+             "section table sorted by (order,id), ids 0..n-1, lower-bound insertion, validation order and the 35-byte name limit, C-string entry points (any reachable holder)",
+             "flatten: alignment, padding < alignment, order/disjointness of ANY two sections, padding ownership, placement of empty sections, code_size = end = estimate, "
+             "overflow <-> kTooLarge/SIZE_MAX, idempotence, untouched fields (any wf holder, any number of sections, 64-bit wrap explicit)",
+             "copy_flattened_data / copy_section_data: refusal iff a buffer does not fit, no write at or beyond dst_size on any path, exact image for all 4 flag combinations, totality with kPadSectionBuffer",
+             "JitRuntime::_add: its own by-id copy loop = copy_flattened_data(kPadSectionBuffer) cell by cell; final size = estimate - reduction; installed bytes = relocated bytes (call / embed_label / "
+             "embed_label_delta / jz-abs sites through C04's relocate); totality of the relocated image",
+             "address-table tail of relocate_to_base (last / not last / absent), run-length copy functions = flat ones, size_t = 32 bits variant, Section flags"],
+         "compared_on_this_run": "every answer of the real CodeHolder / JitRuntime on the generated scenarios below with the extracted model (token by token), and judged by the "
+                                 "independent monitor; constants of /repo's headers with the model through coq/gen/C10Consts.v; corpus + a prefix of the stream again under ASan+UBSan",
+         "scenarios": len(lines), "corpus_scenarios": ncorpus, "scenarios_judged_by_oracle": judged,
          "traces_validated_against_impl": len(lines), "model_vs_impl_disagreements": disagreements,
+         "translator": {"file": "coq/gen/" + GEN_NAME, "constants": len(GEN_KEYS), "path": "regenerated (differs from snapshot)" if gen_changed else "fast (identical to committed snapshot)"},
          "model_variant": (" ".join(margs) if margs else "final"), "sanitizer_scenarios": len(sl), "sanitizer_reports": san_reports,
          "input_distribution": dict(counters)},
         assumptions=["the C++ harness calls the real CodeHolder::{new_section, section_by_name, flatten, code_size, copy_flattened_data, copy_section_data, "
